@@ -27,8 +27,35 @@ def _with_clues(rng, h, w, rooms, k):
                "clues": [rng.choice([-1, -1, 0, 1, 2, min(3, len(r))]) for r in rooms]}
 
 
+def _max_clue_boards(rng, shapes):
+    """a T-, plus- or zigzag-shaped room whose clue is the largest number of pairwise non-adjacent cells it can hold (more
+    than half of its cells for these shapes), the rest of the board in one or two unclued rooms"""
+    shapes_ = [
+        ([(0, 1), (1, 0), (1, 1), (1, 2)], 3),                       # T: the three arms
+        ([(0, 1), (1, 0), (1, 1), (1, 2), (2, 1)], 4),               # plus: the four arms
+        ([(0, 0), (0, 1), (1, 1), (1, 2), (2, 2)], 3),               # staircase: every other cell
+        ([(0, 0), (1, 0), (1, 1), (2, 1), (2, 2), (3, 2)], 3),
+    ]
+    for (h, w) in shapes:
+        for (cells, k) in shapes_:
+            hh = max(y for y, _ in cells) + 1
+            ww = max(x for _, x in cells) + 1
+            if hh > h or ww > w:
+                continue
+            dy, dx = rng.randrange(h - hh + 1), rng.randrange(w - ww + 1)
+            room = sorted([y + dy, x + dx] for (y, x) in cells)
+            inroom = {tuple(c) for c in room}
+            rest = [[y, x] for y in range(h) for x in range(w) if (y, x) not in inroom]
+            rooms = [room] + ([rest] if rest else [])
+            rooms.sort(key=lambda r: r[0])
+            clues = [k if r is room else -1 for r in rooms]
+            yield {"h": h, "w": w, "rooms": rooms, "clues": clues}
+            yield {"h": h, "w": w, "rooms": rooms, "clues": [(k + 1) if r is room else -1 for r in rooms]}
+
+
 def families(tier, rng):
     th = tier == "thorough"
+    yield from _max_clue_boards(rng, [(3, 3), (3, 4), (4, 3), (4, 4)] if th else [(3, 4), (4, 4)])
     for (h, w) in [(1, 1), (1, 2), (2, 1), (1, 3), (3, 1), (2, 2), (1, 4), (4, 1), (2, 3), (3, 2), (1, 5), (5, 1)]:
         parts = list(L.region_partitions(h, w))
         for rooms in (parts if th else L.sample(rng, parts, 12)):
@@ -80,5 +107,6 @@ def tier1_problems(tier, rng):
         for _ in range(8 if th else 3):
             k = rng.randint(2, max(2, h * w // 2))
             yield from _with_clues(rng, h, w, L.random_rooms(rng, h, w, k), 1)
+    yield from _max_clue_boards(rng, [(3, 3), (4, 4), (4, 5), (5, 4), (5, 6), (7, 7)])
     for (h, w) in [(0, 0), (0, 2), (2, 0)]:
         yield {"h": h, "w": w, "rooms": [], "clues": []}
